@@ -13,6 +13,7 @@ def errStr : Err → String
   | .unalloc => "err:unalloc"
   | .draws => "err:draws"
   | .fuel => "err:fuel"
+  | .lrfuel => "err:lrfuel"
   | .chain => "err:chain"
 
 /-- split `xs` into `n` groups of `k` numbers, returning the rest -/
